@@ -207,7 +207,17 @@ func buildTot(c *totCase) *totInstance {
 	if len(c.Routes)%2 == 0 {
 		// Before handlers that decline (return false) run ahead of routing and must not influence the outcome
 		ti.f.Before(func(http.ResponseWriter, *http.Request) bool { return false })
-		ti.f.Before(func(http.ResponseWriter, *http.Request) bool { return false })
+		if len(c.Routes)%4 == 2 {
+			// ... also one that sends "103 Early Hints" on its way: an interim response answers nothing
+			ti.f.Before(func(w http.ResponseWriter, _ *http.Request) bool {
+				w.Header().Add("Link", "</app.css>; rel=preload")
+				w.WriteHeader(http.StatusEarlyHints)
+				w.Header().Del("Link")
+				return false
+			})
+		} else {
+			ti.f.Before(func(http.ResponseWriter, *http.Request) bool { return false })
+		}
 	}
 	if c.NF == "custom" {
 		ti.f.NotFound(func() (int, string) { ti.cur.nf++; return 404, "custom-nf" })
@@ -290,7 +300,7 @@ func buildTot(c *totCase) *totInstance {
 func (ti *totInstance) serve(rq totReq) totObs {
 	var o totObs
 	ti.cur = &o
-	spy := &retSpy{h: http.Header{}}
+	spy := &retSpy{h: http.Header{}, interim: true}
 	hdr := http.Header{}
 	for _, kv := range rq.Hdr {
 		hdr[kv[0]] = append(hdr[kv[0]], kv[1])
